@@ -281,3 +281,4 @@ package trie
 //@   loop 0: invariant true
 //@   ensures [rehash] result0 && result2 == nil ==> unhashed(result1)
 
+
